@@ -2,6 +2,7 @@
 import ast
 
 from sa.core import AnalysisError, norm
+from sa.pat import AnyOf
 
 TECHNIQUE = ('static analysis: CFG dominance of every filesystem effect of '
              'install_workflow by the `rundir.exists()` refusal, reaching '
@@ -252,6 +253,15 @@ def check(c):
         # ---- (5) is the number source monotone under `cylc clean`?
         cl = c.func('clean', 'clean')
         drops_link = [u for u in c.find(cl, 'runN.unlink()')]
+        # clean removes runN only when it points at exactly the run that
+        # was just removed (name equality, not a prefix / substring test:
+        # run1 is a prefix of run10) and that run is really gone
+        for u in drops_link:
+            c.guard('C48.runN', u, [
+                'runN.is_symlink()', '!run_dir.exists()',
+                AnyOf('os.readlink(_) == run_dir.name',
+                      'Path(os.readlink(_)).name == run_dir.name')], cl,
+                what='runN is dropped only with the run it points at;')
         drops_dir = [u for u in c.find(cl, 'remove_dir_and_target(run_dir)')]
         record = [w for w in c.idx.walk(cl.node) if isinstance(w, ast.Call)
                   and isinstance(w.func, ast.Attribute) and w.func.attr in (
